@@ -150,6 +150,12 @@ def run_scenario(fn, blk, idx, call, failval, errno_val, extra_facts=(), watch=(
                 for n in walk(l):
                     if n["k"] == "call" and n.get("callee") not in PURE and guards.key(n) not in own:
                         started = "excused"
+                # the same through a variable that holds the other call's result (`ok = wait (...); if (!ok) return`)
+                lv = strip_casts(l)
+                if lv is not None and lv["k"] == "ref":
+                    for (fk, fop, fv) in facts:
+                        if fk == lv["name"] and fop == "=:" and isinstance(fv, str) and "(" in fv and fv.split("(")[0] not in PURE and fv not in own:
+                            started = "excused"
         return (f2, started, copied)
 
     # seed: process the statement that contains the call, then continue from there
